@@ -107,20 +107,23 @@ def c06_1(ctx):
     wp = ctx.func(SEG, "SegwitChecker._check_witness_program_v0")
     ww = sym.walk(ctx, wp)
     sp = wp.params()[1]
-    stacks = set()
-    for e in ww.effects:
-        if e.kind == "call":
-            for k in e.call.keywords:
-                if k.arg == "initial_stack":
-                    stacks.add(norm(k.value))
-    for e in ww.exits:
-        if e.kind == "return" and e.value is not None:
-            for n in ast.walk(e.value):
-                if isinstance(n, ast.Call) and isinstance(n.func, ast.Name) and n.func.id == "list" and n.args and sp in norm(n.args[0]):
-                    stacks.add(norm(n))
-    src = norm(wp.node)
-    ctx.check("list(%s" % sp in src and not any(isinstance(x, (ast.Assign,)) and norm(x.value) in (sp, "%s[:-1]" % sp) and norm(x.targets[0]) == "stack" for x in body_nodes(wp.node)), "witness-stack-copy", ctx.where(wp),
-              "the witness stack handed to the VM is not a copy of the transaction's witness")
+    rets = [e for e in ww.exits if e.kind == "return" and e.value is not None]
+    if not rets or not all(isinstance(e.value, ast.Tuple) and len(e.value.elts) == 2 for e in rets):
+        raise Undecided("_check_witness_program_v0 does not return (stack, script) pairs")
+
+    def _fresh_list(v):
+        """a new list object: list(...), a display, a comprehension, or a sum of such"""
+        if isinstance(v, (ast.List, ast.ListComp)):
+            return True
+        if isinstance(v, ast.Call) and isinstance(v.func, ast.Name) and v.func.id == "list":
+            return True
+        if isinstance(v, ast.BinOp) and isinstance(v.op, ast.Add):
+            return _fresh_list(v.left) or _fresh_list(v.right)
+        return False
+    for e in rets:
+        v = e.value.elts[0]
+        ctx.check(_fresh_list(v) and any(isinstance(n, ast.Name) and n.id == sp for n in ast.walk(v)), "witness-stack-copy", ctx.where(wp, e.node),
+                  "the witness stack handed to the VM is `%s`, not a fresh list built from the transaction's witness: the VM would consume the witness itself" % norm(v))
 
 
 # ------------------------------------------------------------------ C06.2
